@@ -399,7 +399,7 @@ func GenValueText(r *rand.Rand, depth int) string {
 // ---- the modelled fragment of types (twin of lean/Pcore/Model/Types.lean) ---------------------------------------------
 
 var fragPlain = []string{"Any", "Unit", "Undef", "Default", "Scalar", "ScalarData", "Numeric", "Data", "RichData", "Binary", "Float", "String",
-	"Callable", "Tuple", "Struct", "Timespan", "Timestamp", "SemVer", "SemVerRange", "URI", "Runtime", "Object", "Init", "TypeSet",
+	"Callable", "Struct", "Timespan", "Timestamp", "SemVer", "SemVerRange", "URI", "Runtime", "Object", "Init", "TypeSet", "Tuple",
 	"Integer", "Boolean", "Enum", "Regexp", "Pattern", "Variant", "Array", "Hash", "Collection", "Optional", "NotUndef", "Type", "Sensitive", "Iterable", "Iterator"}
 
 var fragRegexps = []string{"/a/", "/^a.*$/", "/a\\/b/", "/[a-z]+/", "/\\d+/", "/a|b/", "/\\\\/", "//", "/\\Aab\\z/", "/ /", "/'/"}
@@ -593,9 +593,44 @@ func GenFragType(r *rand.Rand, depth int) string {
 		}
 		return "Hash[" + sub() + ", " + sub() + ", " + fragSizeText(r, true) + "]"
 	}
-	switch r.Intn(3) {
+	switch r.Intn(6) {
 	case 0:
 		return "Collection[default]"
+	case 1, 2, 3:
+		n := r.Intn(4)
+		xs := make([]string, n)
+		for i := range xs {
+			xs[i] = sub()
+		}
+		lo, hi := fragSize(r)
+		if lo < 0 {
+			lo, hi = 0, math.MaxInt64
+		}
+		his := strconv.FormatInt(hi, 10)
+		if hi == math.MaxInt64 && r.Intn(2) == 0 {
+			his = "default"
+		}
+		switch r.Intn(6) {
+		case 0:
+			if n > 0 {
+				return "Tuple[" + strings.Join(xs, ", ") + "]"
+			}
+		case 1:
+			if n > 0 {
+				return "Tuple[[" + strings.Join(xs, ", ") + "]]"
+			}
+		case 2:
+			if n > 0 && int64(n) >= lo {
+				return "Tuple[" + strings.Join(xs, ", ") + ", " + strconv.FormatInt(lo, 10) + "]"
+			}
+		case 3:
+			if hi != math.MaxInt64 || int64(n) >= lo {
+				return "Tuple[[" + strings.Join(xs, ", ") + "], Integer[" + strconv.FormatInt(lo, 10) + ", " + strconv.FormatInt(hi, 10) + "]]"
+			}
+		case 4:
+			return "Tuple[" + []string{"0, 0", "0, default", "default", "5", "0, 1", "[]", "[], Integer[0, 0]", "Any, 0, 0", "Unit"}[r.Intn(9)] + "]"
+		}
+		return "Tuple[" + strings.Join(append(xs, strconv.FormatInt(lo, 10), his), ", ") + "]"
 	}
 	return "Collection[" + fragSizeText(r, true) + "]"
 }
